@@ -5,6 +5,7 @@ set -u
 patch=$1; shift
 d=$(mktemp -d /tmp/scratch.XXXXXX)
 git -C /repo archive HEAD | tar -x -C "$d"
+if [ -n "${PRE:-}" ] && ! (cd "$d" && patch -p1 -s < "$PRE"); then echo "PRE PATCH FAILED"; rm -rf "$d"; exit 2; fi
 if ! (cd "$d" && patch -p1 -s < "$patch"); then echo "PATCH FAILED"; rm -rf "$d"; exit 2; fi
 v=$(mktemp -d /tmp/scratch-verif.XXXXXX); mkdir -p $v/evidence; cp /verif/known-findings.txt $v/; ln -s /verif/sa $v/sa
 bin=/verif/bin/gdsa-dev; [ -x $bin ] || bin=/verif/bin/gdsa
